@@ -14,10 +14,16 @@ use crate::tape::Tape;
 pub struct TirGen<'a> {
     pub t: &'a mut Tape,
     pub params: Vec<(String, Type)>,
+    /// one query per input name, as in a lowered program (every mention of an input carries the same query)
+    pub queries: std::collections::BTreeMap<String, InputQuery>,
     pub inputs: Vec<String>,
     /// closed: no ExpectValue / ExpectInput / ExpectFees leaves (the IR is already applied)
     pub closed: bool,
 }
+
+/// UTxO sets in random trees hold at most one element: `into_datum` of a larger set takes the
+/// hash-first element, an entropy effect that the wire and stage checks must not be charged with
+const MAX_SET: usize = 1;
 
 fn some_bytes(t: &mut Tape) -> Vec<u8> {
     let n = *t.pick(&[28usize, 0, 1, 4, 29, 32, 57, 64]);
@@ -68,6 +74,7 @@ pub fn some_utxo(t: &mut Tape, depth: u32) -> Utxo {
         let mut g = TirGen {
             t,
             params: vec![],
+            queries: Default::default(),
             inputs: vec![],
             closed: true,
         };
@@ -90,8 +97,28 @@ pub fn some_utxo(t: &mut Tape, depth: u32) -> Utxo {
 }
 
 impl<'a> TirGen<'a> {
-    fn name(&mut self) -> String {
-        format!("p{}", self.t.draw(4))
+    /// parameter names carry their type, as in a lowered program (one declaration per name)
+    fn name_for(&mut self, ty: &Type) -> String {
+        let tag = match ty {
+            Type::Int => "int",
+            Type::Bytes => "bytes",
+            Type::Bool => "bool",
+            Type::Address => "addr",
+            Type::UtxoRef => "ref",
+            Type::Undefined => "undef",
+            Type::List => "list",
+            _ => "custom",
+        };
+        format!("p_{}{}", tag, self.t.draw(3))
+    }
+
+    fn input_param(&mut self, name: String, depth: u32) -> Expression {
+        if !self.queries.contains_key(&name) {
+            let q = self.query(depth);
+            self.queries.insert(name.clone(), q);
+        }
+        self.inputs.push(name.clone());
+        Expression::EvalParam(Box::new(Param::ExpectInput(name.clone(), self.queries[&name].clone())))
     }
 
     fn ty(&mut self) -> Type {
@@ -118,7 +145,7 @@ impl<'a> TirGen<'a> {
             6 => Expression::Hash(some_bytes(self.t)),
             7 => Expression::UtxoRefs((0..self.t.index(3)).map(|_| some_ref(self.t)).collect()),
             8 => {
-                let n = self.t.index(3);
+                let n = self.t.index(MAX_SET + 1);
                 let mut s = HashSet::new();
                 for _ in 0..n {
                     s.insert(some_utxo(self.t, 1));
@@ -126,7 +153,8 @@ impl<'a> TirGen<'a> {
                 Expression::UtxoSet(s)
             }
             9 if !self.closed => {
-                let (n, ty) = (self.name(), self.ty());
+                let ty = self.ty();
+                let n = self.name_for(&ty);
                 self.params.push((n.clone(), ty.clone()));
                 Expression::EvalParam(Box::new(Param::ExpectValue(n, ty)))
             }
@@ -139,7 +167,20 @@ impl<'a> TirGen<'a> {
         AssetExpr {
             policy: if self.t.chance(1, 3) { Expression::None } else { self.expr(depth.min(1)) },
             asset_name: if self.t.chance(1, 3) { Expression::None } else { self.expr(depth.min(1)) },
-            amount: if self.t.chance(3, 4) { Expression::Number(some_int(self.t)) } else { self.expr(depth.min(1)) },
+            amount: if self.t.chance(2, 3) { Expression::Number(some_int(self.t)) } else { self.expr(depth.min(1)) },
+        }
+    }
+
+    /// something that reads as a multi-asset value
+    pub fn assetish(&mut self, depth: u32) -> Expression {
+        match self.t.draw(5) {
+            0 => Expression::None,
+            1 => {
+                let mut s = HashSet::new();
+                s.insert(some_utxo(self.t, 0));
+                Expression::EvalCoerce(Box::new(Coerce::IntoAssets(Expression::UtxoSet(s))))
+            }
+            _ => Expression::Assets((0..1 + self.t.index(2)).map(|_| self.asset(depth)).collect()),
         }
     }
 
@@ -171,8 +212,19 @@ impl<'a> TirGen<'a> {
                 fields: (0..self.t.index(4)).map(|_| self.expr(d)).collect(),
             }),
             4 => Expression::Assets((0..self.t.index(3)).map(|_| self.asset(d)).collect()),
-            5 => Expression::EvalBuiltIn(Box::new(BuiltInOp::Add(self.expr(d), self.expr(d)))),
-            6 => Expression::EvalBuiltIn(Box::new(BuiltInOp::Sub(self.expr(d), self.expr(d)))),
+            5 | 6 => {
+                // arithmetic: half of the time over operands of the same family (numbers or asset values)
+                let (a, b) = match self.t.draw(4) {
+                    0 => (Expression::Number(some_int(self.t)), Expression::Number(some_int(self.t))),
+                    1 => (self.assetish(d), self.assetish(d)),
+                    _ => (self.expr(d), self.expr(d)),
+                };
+                if self.t.chance(1, 2) {
+                    Expression::EvalBuiltIn(Box::new(BuiltInOp::Add(a, b)))
+                } else {
+                    Expression::EvalBuiltIn(Box::new(BuiltInOp::Sub(a, b)))
+                }
+            }
             7 => Expression::EvalBuiltIn(Box::new(BuiltInOp::Concat(self.expr(d), self.expr(d)))),
             8 => Expression::EvalBuiltIn(Box::new(BuiltInOp::Negate(self.expr(d)))),
             9 => Expression::EvalBuiltIn(Box::new(BuiltInOp::Property(self.expr(d), self.expr(d.min(1))))),
@@ -193,8 +245,7 @@ impl<'a> TirGen<'a> {
             13 => Expression::EvalParam(Box::new(Param::Set(self.expr(d)))),
             14 if !self.closed => {
                 let n = format!("in{}", self.t.draw(3));
-                self.inputs.push(n.clone());
-                Expression::EvalParam(Box::new(Param::ExpectInput(n, self.query(d))))
+                self.input_param(n, d)
             }
             15 => Expression::AdHocDirective(Box::new(self.adhoc(d))),
             _ => self.leaf(),
@@ -216,13 +267,47 @@ impl<'a> TirGen<'a> {
             ])
             .to_string();
         let mut data = HashMap::new();
-        let keys = [
-            "credential", "amount", "redeemer", "version", "script", "coin", "drep", "stake", "to", "datum", "from",
-        ];
+        // two thirds of the time: the keys that directive expects, mostly with values of the expected kind
+        let expected: &[&str] = match name.as_str() {
+            "withdrawal" | "withdraw" => &["credential", "amount", "redeemer"],
+            "plutus_witness" => &["version", "script"],
+            "native_witness" => &["script"],
+            "treasury_donation" => &["coin"],
+            "vote_delegation_certificate" => &["drep", "stake"],
+            "cardano_publish" => &["to", "amount", "datum", "version", "script"],
+            _ => &["amount"],
+        };
+        let shaped = self.t.chance(2, 3);
+        let keys: Vec<&str> = if shaped {
+            expected.to_vec()
+        } else {
+            vec!["credential", "amount", "redeemer", "version", "script", "coin", "drep", "stake", "to", "datum", "from"]
+        };
         for k in keys {
-            if self.t.chance(1, 3) {
-                data.insert(k.to_string(), self.expr(depth));
+            let present = if shaped { self.t.chance(5, 6) } else { self.t.chance(1, 3) };
+            if !present {
+                continue;
             }
+            let typed = if shaped { self.t.chance(4, 5) } else { self.t.chance(1, 2) };
+            let v = match (typed, k) {
+                (true, "version") => Expression::Number(*self.t.pick(&[0i128, 1, 2, 3, 4, -1, 256])),
+                (true, "script") | (true, "drep") => Expression::Bytes(some_bytes(self.t)),
+                (true, "amount") if name == "cardano_publish" || self.t.chance(1, 3) => Expression::Assets(vec![AssetExpr {
+                    policy: Expression::None,
+                    asset_name: Expression::None,
+                    amount: Expression::Number(*self.t.pick(&[2_000_000i128, 0, -5, 1 << 40])),
+                }]),
+                (true, "amount") | (true, "coin") => Expression::Number(some_int(self.t)),
+                (true, "credential") | (true, "stake") | (true, "to") | (true, "from") => {
+                    let (hdr, n) = *self.t.pick(&[(0x60u8, 28usize), (0x00, 56), (0xE0, 28), (0x60, 27), (0x00, 0)]);
+                    let mut a = vec![hdr];
+                    a.extend(std::iter::repeat(0xB0).take(n));
+                    Expression::Address(a)
+                }
+                (true, "redeemer") | (true, "datum") => self.expr(1),
+                _ => self.expr(depth),
+            };
+            data.insert(k.to_string(), v);
         }
         AdHocDirective { name, data }
     }
@@ -247,13 +332,12 @@ impl<'a> TirGen<'a> {
                     name: format!("in{i}"),
                     utxos: if self.closed || self.t.chance(1, 2) {
                         let mut s = HashSet::new();
-                        for _ in 0..(1 + self.t.index(2)) {
+                        for _ in 0..(1 + self.t.index(MAX_SET)) {
                             s.insert(some_utxo(self.t, 1));
                         }
                         Expression::UtxoSet(s)
                     } else {
-                        let q = self.query(d);
-                        Expression::EvalParam(Box::new(Param::ExpectInput(format!("in{i}"), q)))
+                        self.input_param(format!("in{i}"), d)
                     },
                     redeemer: if self.t.chance(1, 3) { self.expr(d) } else { Expression::None },
                 })
